@@ -23,6 +23,8 @@ env = dict(os.environ, PYTHONPATH=WT + '/src', PYTHONDONTWRITEBYTECODE='1', MPLB
 for sid in ids:
     d = '/verif/seeded/' + sid
     meta = json.load(open(d + '/meta.json')) if os.path.exists(d + '/meta.json') else {}
+    if meta.get('evaluated_at_repo_head') == head and meta.get('final') and not os.environ.get('SEED_FORCE'):
+        continue
     sh('git checkout -- . && git clean -fdq')
     demo = d + '/demo.py'
     meta['evaluated_at_repo_head'] = head
@@ -39,6 +41,8 @@ for sid in ids:
     checks = RELATED.get(sid, [sid.split('-')[0]])
     meta['checks'] = {}
     for c in checks:
+        if any(v['exit'] == 1 for v in meta['checks'].values()) and c != sid.split('-')[0]:
+            continue  # already caught; the property's own check is always run
         e2 = dict(os.environ, PV_REPO=WT, VERIF_SEED=os.environ.get('VERIF_SEED', '0'))
         t0 = time.time()
         r = subprocess.run('/venv/bin/python -m pv.run %s --tier quick' % c, shell=True, cwd='/verif', env=e2, capture_output=True, text=True)
@@ -51,6 +55,7 @@ for sid in ids:
                 what = str(ex)
         meta['checks'][c] = {'exit': r.returncode, 'violations': len(lines), 'first': what, 'wall_s': round(time.time() - t0, 1),
                              'stderr': r.stderr[-300:] if r.returncode == 2 else ''}
+    meta['final'] = True
     json.dump(meta, open(d + '/meta.json', 'w'), indent=1)
     print(sid, 'suite:', meta['suite_with'][:12], 'demo:', meta['demo_without'], meta['demo_with'], {k: v['exit'] for k, v in meta['checks'].items()}, flush=True)
 sh('git checkout -- . && git clean -fdq')
